@@ -55,6 +55,16 @@ CHECKS = {
         note=("Trusted: vlib/simk.py file layer, c09 renderers. Presence of a device is observed at nowrap=True calls that return it."),
         design="DESIGN.md section 3 C10",
     ),
+    "C19": dict(
+        level="exploration",
+        technique="property-based testing (Hypothesis): generated /sys and /proc hardware trees -> statement arithmetic on the model tree",
+        text=("Generated hwmon/thermal/power_supply/cpufreq/cpuinfo/stat/topology trees (both directory nestings, any subset of optional files, unreadable and non-numeric files, "
+              "zero thresholds, alternative battery file families, AC adapters, offline CPUs, sysconf failing) are served through an interposed os/glob/open layer to the real code, "
+              "including the import-time sysfs variant of cpu_freq loaded as a second module copy; results are compared with the statement's arithmetic. Search, not proof."),
+        note=("Trusted: vlib/simk.py file/glob layer. The sandbox has no hwmon/thermal/battery/cpufreq, so there is no live tier; chip name files always present; fan inputs numeric; "
+              "PYTHONHASHSEED fixed to 0 (set iteration order of trip points)."),
+        design="DESIGN.md section 3 C19",
+    ),
 }
 
 ALL = ["C%02d" % i for i in range(1, 21)]
